@@ -59,7 +59,7 @@ def pairs(ctx, rng, xr, ops):
     base = {}
     for op in chosen:
         name = op.name
-        if (op.exact or op.peak or name == "dp") and ties(x, op):
+        if (op.exact or op.peak or name in ("dp", "dm")) and ties(x, op):
             rec.skip(name, "discrete decision tied within rounding")
             continue
         try:
